@@ -72,7 +72,7 @@ def time_grid(rng, tier, kind=None):
     return [int(x) for x in (1950 + np.concatenate(([0], np.cumsum(steps))))], "uneven"
 
 
-def make_config(fd, rng, tier, model=None, grid_kind=None, solvable=False, n_extra=None, wide_p=0.0):
+def make_config(fd, rng, tier, model=None, grid_kind=None, solvable=False, n_extra=None, wide_p=0.0, very_long_p=0.05):
     """wide_p: share of configurations with several hundred labels (for checks that can afford tables of 10^6-10^7 entries)"""
     wide = False
     if grid_kind is None:
@@ -105,7 +105,7 @@ def make_config(fd, rng, tier, model=None, grid_kind=None, solvable=False, n_ext
     span = float(items[-1] - items[0]) + float(dtv.mean())
     pnames = S.SURVIVAL[model][0]
     shape = tuple(dims.shape)
-    very_long = bool(rng.random() < 0.05) and len(items) <= 60
+    very_long = bool(rng.random() < very_long_p) and len(items) <= 60
     cfg = dict(items=items, gclass=gclass, tl=tl, dims=dims, extra=extra_letters, model=model, shape=shape, U=U, tdim=tdim, layout=["C", "C", "F", "time-last"][(len(items) + len(model)) % 4],
                very_long=very_long, settings_late=bool((len(items) + len(model)) % 3 == 0), inflow_at=str(rng.choice(["start", "middle", "end"])), n_pts=int(rng.choice([1, 1, 1, 2, 3, 4, 5, 6, 7, 8, 9, 10])) if len(items) <= 60 else int(rng.choice([1, 2])))
     # ground-truth parameter values per (cohort, labels)
@@ -446,7 +446,7 @@ EPS = float(np.finfo(float).eps)
 
 def c10_case(rec, hub, rng, tier):
     fd = hub.fd
-    cfg, lm = make_solvable(fd, rng, tier, wide_p=0.012)
+    cfg, lm = make_solvable(fd, rng, tier, wide_p=0.012, very_long_p=0.2)  # every fifth configuration: survival shares next to one (a nearly unit diagonal)
     if cfg is None:
         rec.skip(M10, "no solvable configuration found")
         return
@@ -889,8 +889,12 @@ def c17_case(rec, hub, rng, tier, which):
                     if deg_last.size:
                         deg_last.reshape(-1)[int(rng.integers(0, deg_last.size))] = [0.0, np.nan, -1.0][int(rng.integers(0, 3))]
                     # ... or holds a degenerate entry (zero, NaN, negative) that the model may refuse or take as it is
-                    for bad_last in (fd.FlodymArray(dims=fd.DimensionSet(dim_list=[bad_dim]), values=np.array([1.0, 2.0])), "three years", deg_last):
-                        attempts.append(lambda bl=bad_last: live.lifetime_model.set_prms(**good_new, **{last_k: bl}))
+                    cands = [fd.FlodymArray(dims=fd.DimensionSet(dim_list=[bad_dim]), values=np.array([1.0, 2.0])), "three years", deg_last]
+                    # one or two of them per step, in any order and at any place among the other failing calls (a later call that
+                    # happens to be accepted must not always come last and cover up what an earlier refused one left behind)
+                    for ci in rng.permutation(3)[: int(rng.integers(1, 3))]:
+                        attempts.append(lambda bl=cands[int(ci)]: live.lifetime_model.set_prms(**good_new, **{last_k: bl}))
+                    attempts = [attempts[int(q_)] for q_ in rng.permutation(len(attempts))]
                 for a_ in attempts:
                     try:
                         a_()
